@@ -311,15 +311,28 @@ impl Ctx {
         F: FnMut(&mut Rng, &mut Case) -> Outcome,
     {
         let sub_seed = mix(self.seed, hash_str(&format!("{}/{}", self.prop, sub)));
+        // a pass may leave out sub-checks by name prefix (e.g. stack-depth stress under an interpreter)
+        if let Some(skip) = self.params.get("skip_subs") {
+            if skip.split('+').any(|x| !x.is_empty() && sub.starts_with(x)) {
+                return;
+            }
+        }
         // development aid: restrict a direct worker run to some sub-checks (never set by the driver)
         if let Ok(only) = std::env::var("VW_ONLY_SUB") {
             if !only.split(',').any(|x| x == sub) {
                 return;
             }
         }
+        // A sanitizer pass runs a pseudo-random subset (`scale_pct` percent) of every sub-check's cases,
+        // recorded under its own name so that it never counts towards an exhaustive claim.
+        let scale = self.param_u64("scale_pct", 100).min(100);
+        let scaled_name = format!("{}@{}pct", sub, scale);
+        let name_in = sub;
+        let sub: &str = if scale < 100 { &scaled_name } else { sub };
+        let plan = if scale < 100 { Plan { exhaustive: false, ..plan } } else { plan };
         // Replay of exactly one case
         if let Some((one_sub, one_idx)) = &self.one {
-            if one_sub != sub {
+            if one_sub != sub && one_sub != name_in {
                 return;
             }
             let (out, case_desc) = self.run_case(sub, sub_seed, *one_idx, &mut f);
@@ -350,6 +363,10 @@ impl Ctx {
             if done % 16 == 0 && sub_start.elapsed().as_millis() as u64 > allowed_ms {
                 complete = false;
                 break;
+            }
+            if scale < 100 && mix(sub_seed ^ 0x5ca1e, idx) % 100 >= scale {
+                k += 1;
+                continue;
             }
             let (out, case_desc) = self.run_case(sub, sub_seed, idx, &mut f);
             self.record(sub, idx, out, case_desc);
